@@ -95,6 +95,8 @@ def judge(case):
         MAIN_REPORT.full_clear()
         return Result([], False, ['resolve-raised(left to C01)'], ambiguous=1)
     classes.append('resolver=' + rname)
+    if any(spec['ctor'] == 'unit_test' for spec in case['specs']):
+        classes.append('has-unit_test' + ('-ctor-raised' if any(case['specs'][i]['ctor'] == 'unit_test' for i, _ in raised) else ''))
     scored = [o for o in obs if o.score is not None]
     rows = set()
     for o in scored:
